@@ -11,7 +11,7 @@ From Coq Require Import String.
 From FA Require Import model.Base model.Globals.
 
 (** shared cells, as in [gstate] *)
-Inductive cell := CellPrec | CellOther.
+Inductive cell := CellPrec | CellFlags | CellOther.
 
 (** an atomic step: a function on (shared, local) tagged with its footprint *)
 Record step (G L : Type) := mkStep {
@@ -108,17 +108,19 @@ Definition s_set (d : decfield) : astep :=
 (** decimal_context.create_decimal(unscaled_datum) *)
 Definition s_create (d : decfield) : astep :=
   mkStep (fun g l => if failed l then (g, l)
-                     else (g, mkL (out l) (Some (create_decimal (prec g) (df_unscaled d))) false))
-         [] [CellPrec].
+                     else (add_flags g (create_flags (prec g) (df_unscaled d)),
+                           mkL (out l) (Some (create_decimal (prec g) (df_unscaled d))) false))
+         [CellFlags] [CellPrec].
 
 (** .scaleb(-scale, decimal_context) *)
 Definition s_scaleb (d : decfield) : astep :=
   mkStep (fun g l => if failed l then (g, l)
                      else match cur l with
-                          | Some x => (g, mkL (scaleb (prec g) x (df_scale d) :: out l) None false)
+                          | Some x => (add_flags g (scaleb_flags (prec g) x (df_scale d)),
+                                       mkL (scaleb (prec g) x (df_scale d) :: out l) None false)
                           | None => (g, l)
                           end)
-         [] [CellPrec].
+         [CellFlags] [CellPrec].
 
 (** repaired [read_decimal]: a per-call Context; no shared cell is read or written *)
 Definition s_local (d : decfield) : astep :=
@@ -146,10 +148,20 @@ Local Open Scope string_scope.
 
 (** results of all threads after a schedule: "<prec>|r0/r1/.../" *)
 Definition show_threads (g : gstate) (ts : list (tstate gstate local)) : string :=
-  show_Z (prec g) ++ "|" ++ fold_right (fun t acc => show_result (result_of (fst t)) ++ "/" ++ acc) "" ts.
+  show_gstate g ++ "|" ++ fold_right (fun t acc => show_result (result_of (fst t)) ++ "/" ++ acc) "" ts.
 
 Definition show_schedule_run (v : variant) (g : gstate) (cs : list api_call) (s : schedule) : string :=
   let '(g', ts) := run_schedule s g (start l0 (map (op_steps v) cs)) in show_threads g' ts.
 
 Definition show_sequential (v : variant) (g : gstate) (cs : list api_call) : string :=
   fold_right (fun c acc => show_result (snd (api_step_v v g c)) ++ "/" ++ acc) "" cs.
+
+(** shared cells an operation may write, as tags: P = prec, F = flags, O = any other inventory cell *)
+Definition cell_eqb (a b : cell) : bool :=
+  match a, b with CellPrec, CellPrec | CellFlags, CellFlags | CellOther, CellOther => true | _, _ => false end.
+
+Definition show_writes (v : variant) (c : api_call) : string :=
+  let ws := flat_map writes (op_steps v c) in
+  (if existsb (cell_eqb CellPrec) ws then "P" else "") ++
+  (if existsb (cell_eqb CellFlags) ws then "F" else "") ++
+  (if existsb (cell_eqb CellOther) ws then "O" else "") ++ ".".
